@@ -1,5 +1,11 @@
 use crate::prelude::*;
-use std::sync::Arc;
+use std::sync::{Arc, RwLock};
+
+#[derive(Clone)]
+enum Ended {
+  Completed,
+  Failed(RxError),
+}
 
 #[derive(Clone)]
 pub struct AsyncSubject<'a, Item>
@@ -7,6 +13,11 @@ where
   Item: Clone + Send + Sync,
 {
   subject: Arc<subject::Subject<'a, Item>>,
+  // the last item and the terminal belong to the subject, not to each subscriber: whoever
+  // subscribes — before, between or after the items, or after the terminal — gets the last
+  // item on completion
+  last_item: Arc<RwLock<Option<Item>>>,
+  ended: Arc<RwLock<Option<Ended>>>,
 }
 
 impl<'a, Item> AsyncSubject<'a, Item>
@@ -16,20 +27,62 @@ where
   pub fn new() -> AsyncSubject<'a, Item> {
     AsyncSubject {
       subject: Arc::new(subjects::Subject::new()),
+      last_item: Arc::new(RwLock::new(None)),
+      ended: Arc::new(RwLock::new(None)),
     }
   }
 
   pub fn next(&self, item: Item) {
-    self.subject.next(item);
+    if self.ended.read().unwrap().is_some() {
+      return;
+    }
+    *self.last_item.write().unwrap() = Some(item);
   }
   pub fn error(&self, err: RxError) {
+    {
+      let mut ended = self.ended.write().unwrap();
+      if ended.is_some() {
+        return;
+      }
+      *ended = Some(Ended::Failed(err.clone()));
+    }
     self.subject.error(err);
   }
   pub fn complete(&self) {
+    {
+      let mut ended = self.ended.write().unwrap();
+      if ended.is_some() {
+        return;
+      }
+      *ended = Some(Ended::Completed);
+    }
+    let last_item = self.last_item.read().unwrap().clone();
+    if let Some(item) = last_item {
+      self.subject.next(item);
+    }
     self.subject.complete();
   }
   pub fn observable(&self) -> Observable<'a, Item> {
-    self.subject.observable().take_last(1).clone()
+    let last_item = Arc::clone(&self.last_item);
+    let ended = Arc::clone(&self.ended);
+    let subject = Arc::clone(&self.subject);
+
+    Observable::create(move |s| {
+      let ended = ended.read().unwrap().clone();
+      match ended {
+        Some(Ended::Failed(err)) => s.error(err),
+        Some(Ended::Completed) => {
+          let last_item = last_item.read().unwrap().clone();
+          if let Some(item) = last_item {
+            s.next(item);
+          }
+          s.complete();
+        }
+        None => {
+          subject.observable().inner_subscribe(s);
+        }
+      }
+    })
   }
 }
 
